@@ -24,6 +24,7 @@ XfFew == {<<1, 0, 1>>, <<1, 0, 2>>, <<3, 1, 1>>}
 XfNone == {}
 AnyBy == {}
 ByFew == {<<"subj", "index">>, <<"grp", "cond">>, <<"index", "cond">>}
+ByTwo == {<<"subj", "cond">>, <<"grp", "index">>}
 Id3 == <<1, 2, 3>>
 Rev3 == <<3, 2, 1>>
 Id4 == <<1, 2, 3, 4>>
